@@ -422,3 +422,26 @@ Example C05_test_distinct_example :
   map (map F64.to_bits) (test_distinct_run Z Z.eqb [] [5; 3; 5; 1; 3]%Z)
   = map (fun z => [F64.to_bits (F64.of_Z z)]) [0; 1; 0; 2; 1]%Z.
 Proof. vm_compute. reflexivity. Qed.
+
+(* ======================================================== TEAM programs ========
+   Every theorem above quantifies over the output oracle [out]; for a
+   team<T> the oracle is [fun i => team_out (map (fun member => member i) members)]
+   (running mean of the members' defined outputs, C08's team_eval), and for the
+   classification evaluators the tag function is the winner-takes-all of the
+   members' classifiers (dyn_slot_eval_team / gaussian_eval_team /
+   binary_eval_team instantiate the generic loops).  Witness of the shape of
+   seeded change C05-r3-1: two members yielding 1.5e308 (their sum overflows,
+   their mean does not) reproduce the target 1.5e308 exactly. *)
+Example C05_team_huge_members_reproduce_target :
+  let big := F64.of_bits 9216995797984332016 in                    (* 0x7feab36d48e1acf0 = 1.5e308 *)
+  let members := [fun i : list pout => nth 0 i PVoid; fun i : list pout => nth 1 i PVoid] in
+  let out := fun i : list pout => team_out (map (fun m => m i) members) in
+  let d := [mk_example [PDouble big; PDouble big] (PDouble big) 7%N 0%N;
+            mk_example [PVoid; PVoid] (PDouble one) 2%N 0%N] in
+  match out [PDouble big; PDouble big] with PDouble v => F64.to_bits v = F64.to_bits big | _ => False end /\
+  out [PVoid; PVoid] = PVoid /\
+  (map ex_diff (fst (soe_eval (mae_err out) [hd (mk_example [] PVoid 0%N 0%N) d])),
+   map F64.to_bits (snd (soe_eval (mae_err out) [hd (mk_example [] PVoid 0%N 0%N) d])))
+  = ([7%N], [F64.to_bits (F64.neg F64.zero)]) /\
+  map ex_diff (fst (soe_eval (count_err out) d)) = [7%N; 3%N].
+Proof. repeat split; vm_compute; reflexivity. Qed.
